@@ -9,17 +9,27 @@ ID = 'C13'
 ENGINE = 'detsched'
 TECHNIQUE = 'runtime monitoring: random start/stop/clear/subscribe/publish/active-object histories against a small executable model of the fabric, run under a deterministic cooperative scheduler; thread-census invariant at every Thread.start and operation boundary; exact deadlock detection'
 RULE = ('random operation sequences (3-15) over {fabric.start, fabric.stop, fabric.clear, subscribe, publish, start an active object, post to an '
-        'active object}, including repeated start / stop and clear while running, each operation followed by quiescence (delivery threads and '
+        'active object, FAULT (a lifo subscriber whose append raises, which kills the lifo delivery thread only)}, including repeated start / stop and clear while running, each operation followed by quiescence (delivery threads and '
         'objects interleaved by detsched). Invariants: at every Thread.start and after every operation at most one live fifo and one live lifo '
         'delivery thread; is_alive() == both live; after stop() none live; a publication made while running reaches exactly its current '
         'subscribers once; after stop(); start() a fresh subscription + publication is delivered; an active object that wakes while the '
         'fabric is stopped halts without dispatching; no operation deadlocks. distinct_nontrivial = distinct operation-kind sequences')
 CASES = {'quick': 2000, 'thorough': 100000}
-BUDGET = {'quick': 50, 'thorough': 1200}
-REQUIRE = {'sequences': 800, 'ops': 8000, 'repeated_start': 300, 'restart_after_stop': 300, 'clear_while_running': 200, 'object_wakes_while_stopped': 60}
+BUDGET = {'quick': 50, 'thorough': 300}
+REQUIRE = {'sequences': 800, 'ops': 8000, 'repeated_start': 300, 'restart_after_stop': 300, 'clear_while_running': 200, 'object_wakes_while_stopped': 60, 'start_after_partial_failure': 100}
 ASSUME = ['operations are issued by one thread, each followed by quiescence; publications made while the fabric is stopped are not constrained']
 ANNOUNCE_CASES = True
 ROLES = ('thread_runner_fifo', 'thread_runner_lifo')
+
+
+class HarnessFault(Exception):
+  pass
+
+
+class FaultyQueue:
+  """a subscriber whose append raises: a fault that kills the delivery thread that serves it"""
+  def append(self, item):
+    raise HarnessFault('subscriber queue refuses the event')
 
 
 def census(s):
@@ -33,7 +43,7 @@ def census(s):
 def run_case(ctx, n):
   rng = ctx.rng('case', n)
   nops = rng.randint(3, 15)
-  kinds = ['start', 'start', 'stop', 'stop', 'clear', 'sub', 'sub', 'pub', 'pub', 'ao_start', 'ao_post', 'ao_post']
+  kinds = ['start', 'start', 'stop', 'stop', 'clear', 'sub', 'sub', 'pub', 'pub', 'ao_start', 'ao_post', 'ao_post', 'fault']
   ops = [rng.choice(kinds) for _ in range(nops)]
   if rng.random() < 0.5:
     ops = ['start'] + ops
@@ -65,8 +75,11 @@ def run_case(ctx, n):
             ctx.count('repeated_start')
           if model['stopped_once'] and not model['running']:
             ctx.count('restart_after_stop')
+          if model['running'] == 'degraded':
+            ctx.count('start_after_partial_failure')
           fabric.start()
-          model['running'] = True
+          model['running'] = True if not model.get('fault_pending') else 'degraded'
+          model['fault_pending'] = False
           model['ever_started'] = True
           for a in aos:
             if a['state'] == 'doomed':
@@ -84,6 +97,8 @@ def run_case(ctx, n):
             ctx.count('clear_while_running')
           fabric.clear()
           model['subs'].clear()
+          model['faulty_sub'] = False
+          model['fault_pending'] = False
         elif op == 'sub':
           qi, sig, kind = rng.randrange(3), rng.choice(sigs), rng.choice(['fifo', 'lifo'])
           detail = (qi, sig, kind)
@@ -94,12 +109,27 @@ def run_case(ctx, n):
           sig = rng.choice(sigs)
           detail = (uid[0], sig)
           fabric.publish(Event(signal=sig, payload=uid[0]))
+        elif op == 'fault' and model['running'] is not True:
+          done.append((op, 'skipped: only injected while both delivery threads run'))
+          continue
+        elif op == 'fault':
+          # a lifo subscriber that raises: its delivery thread dies, the other keeps running (until the next start())
+          fabric.subscribe(FaultyQueue(), Event(signal='C13_FAULT'), queue_type='lifo')
+          model['faulty_sub'] = True
+          fabric.publish(Event(signal='C13_FAULT', payload=-1))
+          if model['running'] is not True:
+            model['fault_pending'] = True      # no live lifo thread: delivered (and fatal) right after the next start
+          if model['running'] is True:
+            model['running'] = 'degraded'
+            ctx.count('lifo_thread_killed_by_fault')
         elif op == 'ao_start':
           hist = aosim.History()
           a = aosim.make_ao(hist, name='o%d' % len(aos))
           a.start_at(aosim.make_state(hist, {}, True, name='c13_state_%d' % len(aos)))
           aos.append({'ao': a, 'hist': hist, 'state': 'alive'})
-          model['running'] = True      # an object starts the fabric when it is not alive
+          # an object starts the fabric when it is not alive (also after a partial failure)
+          model['running'] = True if not model.get('fault_pending') else 'degraded'
+          model['fault_pending'] = False
           model['ever_started'] = True
           for x in aos:
             if x['state'] == 'doomed':
@@ -125,13 +155,17 @@ def run_case(ctx, n):
         if fabric.is_alive() != live_both:
           ctx.violation('C13/is-alive-wrong', 'after %r: is_alive() = %r but live delivery threads are %r' % (done[-1], fabric.is_alive(), dict(c)), wit_k)
           return
-        if model['running'] and not live_both:
+        if model['running'] == 'degraded':
+          if c['thread_runner_fifo'] != 1 or c['thread_runner_lifo'] != 0:
+            ctx.violation('C13/census-after-partial-failure', 'after %r (the lifo delivery thread was killed by a faulty subscriber) live delivery threads are %r, expected fifo 1 / lifo 0' % (done[-1], dict(c)), wit_k)
+            return
+        elif model['running'] and not live_both:
           ctx.violation('C13/not-running-after-start', 'after %r the fabric should run, live delivery threads: %r' % (done[-1], dict(c)), wit_k)
           return
         if not model['running'] and sum(c.values()):
           ctx.violation('C13/threads-alive-after-stop', 'after %r the fabric is stopped, but delivery threads are alive: %r' % (done[-1], dict(c)), wit_k)
           return
-        if op == 'pub' and model['running']:
+        if op == 'pub' and model['running'] is True:
           u, sig = detail
           for qi, q in enumerate(queues):
             want = sum(1 for kind in ('fifo', 'lifo') if qi in model['subs'][(sig, kind)])
@@ -163,7 +197,7 @@ def run_case(ctx, n):
       ctx.violation(key, 'operation %r did not complete: %s; blocked %r; ops done %r' % (ops[len(done)] if len(done) < len(ops) else None, v.kind, (v.info or {}).get('blocked'), [d[0] for d in done]), wit)
       return
     ctx.count('sequences')
-    exc = [(t.name, t.role, repr(t.exc)) for t in s.threads if t.exc is not None]
+    exc = [(t.name, t.role, repr(t.exc)) for t in s.threads if t.exc is not None and not isinstance(t.exc, HarnessFault)]
     if exc:
       ctx.violation('C13/exception-in-thread', 'a thread died: %r' % exc, wit)
       return
